@@ -46,6 +46,17 @@ _Bool xv_updated; int xv_upd_cond; struct xcm_socket *xv_upd_sock;
 struct xcm_socket *xv_closed_sock, *xv_cleaned_sock, *xv_destroyed_sock; struct xpoll *xv_destroyed_xpoll;
 int xv_fd_ret;                  /* what xpoll_get_fd returned last */
 
+/* attributes */
+_Bool xv_attrs_req_block;       /* never assigned: the attribute write(s) of this call ask for BLOCKING mode (xcm.blocking = true);
+                                   that is the caller's request to block (DESIGN C05, exception) */
+_Bool xv_mode_after_attrs;      /* never assigned (prophecy): the mode set_attrs will leave the new socket in */
+long xv_set_calls;              /* attribute writes handed to the attribute tree so far */
+_Bool xv_set_failed;            /* ... one of them has failed (sticky) */
+const char *xv_set_name; int xv_set_type; const void *xv_set_value; size_t xv_set_len; struct xcm_socket *xv_set_sock; int xv_set_rv;
+const char *xv_set_first_name;  /* name of write number 0 */
+long xv_get_calls; const char *xv_get_name; void *xv_get_value; size_t xv_get_cap; struct xcm_socket *xv_get_sock; int xv_get_rv; int xv_get_errno;
+int xv_get_type;                /* type the attribute tree reported */
+struct xcm_socket *xv_created_sock; struct xcm_socket *xv_inited_sock, *xv_connected_sock, *xv_accepted_sock;
 _Bool xv_poll_failed;           /* a poll() call has failed (set by the poll stub of env/xcmcore_env.h, never cleared) */
 #endif
 
@@ -160,6 +171,170 @@ __CPROVER_assigns(xv_fd_ret)
 __CPROVER_ensures(__CPROVER_return_value >= 0 && xv_fd_ret == __CPROVER_return_value)
 ;
 
+/* ---- xcm_tp.c: socket objects.  create never fails (allocation failure aborts); the new object is the caller's */
+struct xcm_socket *xcm_tp_socket_create(const struct xcm_tp_proto *proto, enum xcm_socket_type type, struct xpoll *xpoll,
+                                        bool enable_ctl, bool auto_update, bool is_blocking)
+__CPROVER_requires(1)
+__CPROVER_assigns(xv_created_sock)
+__CPROVER_ensures(__CPROVER_is_fresh(__CPROVER_return_value, sizeof(struct xcm_socket)) && xv_created_sock == __CPROVER_return_value)
+__CPROVER_ensures(__CPROVER_return_value->proto == proto && __CPROVER_return_value->type == type && __CPROVER_return_value->xpoll == xpoll && \
+                  __CPROVER_return_value->is_blocking == is_blocking && __CPROVER_return_value->condition == 0)
+;
+void xcm_tp_socket_destroy(struct xcm_socket *s)
+__CPROVER_requires(s != NULL)
+__CPROVER_assigns(xv_destroyed_sock)
+__CPROVER_frees(s)
+__CPROVER_ensures(xv_destroyed_sock == s)
+;
+#define XC_RV_OR_ERRNO (__CPROVER_return_value == 0 || (__CPROVER_return_value == -1 && xv_errno > 0))
+int xcm_tp_socket_init(struct xcm_socket *s, struct xcm_socket *parent)
+__CPROVER_requires(__CPROVER_r_ok(s, sizeof(struct xcm_socket)))
+__CPROVER_assigns(xv_errno, xv_inited_sock)
+__CPROVER_ensures(XC_RV_OR_ERRNO && xv_inited_sock == s)
+;
+/* connect/server/accept of a transport never sleep whatever the mode (enforced in units ux, btcp ...: suspected F20) */
+int xcm_tp_socket_connect(struct xcm_socket *s, const char *remote_addr)
+__CPROVER_requires(__CPROVER_r_ok(s, sizeof(struct xcm_socket)))
+__CPROVER_assigns(xv_errno, xv_connected_sock, xv_conn_dead, xv_updated, xv_upd_cond, xv_upd_sock)
+__CPROVER_ensures(XC_RV_OR_ERRNO && xv_connected_sock == s)
+;
+int xcm_tp_socket_server(struct xcm_socket *s, const char *local_addr)
+__CPROVER_requires(__CPROVER_r_ok(s, sizeof(struct xcm_socket)))
+__CPROVER_assigns(xv_errno, xv_connected_sock, xv_updated, xv_upd_cond, xv_upd_sock)
+__CPROVER_ensures(XC_RV_OR_ERRNO && xv_connected_sock == s)
+;
+int xcm_tp_socket_accept(struct xcm_socket *conn_s, struct xcm_socket *server_s)
+__CPROVER_requires(__CPROVER_r_ok(conn_s, sizeof(struct xcm_socket)) && __CPROVER_r_ok(server_s, sizeof(struct xcm_socket)))
+__CPROVER_assigns(xv_errno, xv_accepted_sock, xv_updated, xv_upd_cond, xv_upd_sock)
+__CPROVER_ensures(XC_RV_OR_ERRNO && xv_accepted_sock == conn_s)
+;
+void xcm_tp_socket_close(struct xcm_socket *s)
+__CPROVER_requires(1)
+__CPROVER_assigns(xv_closed_sock)
+__CPROVER_ensures(xv_closed_sock == s)
+;
+void xcm_tp_socket_cleanup(struct xcm_socket *s)
+__CPROVER_requires(1)
+__CPROVER_assigns(xv_cleaned_sock)
+__CPROVER_ensures(xv_cleaned_sock == s)
+;
+const char *xcm_tp_socket_get_remote_addr(struct xcm_socket *conn_s, bool suppress_tracing)
+__CPROVER_requires(1)
+__CPROVER_assigns(xv_errno)
+__CPROVER_ensures(1)
+;
+const char *xcm_tp_socket_get_local_addr(struct xcm_socket *s, bool suppress_tracing)
+__CPROVER_requires(1)
+__CPROVER_assigns(xv_errno)
+__CPROVER_ensures(1)
+;
+struct xcm_tp_proto *xcm_tp_proto_by_addr(const char *addr)
+__CPROVER_requires(1)
+__CPROVER_assigns(xv_errno)
+__CPROVER_ensures(__CPROVER_return_value == NULL ==> xv_errno > 0)
+;
+void xcm_tp_common_attr_populate(struct xcm_socket *s, struct attr_tree *attr_tree)
+__CPROVER_requires(1)
+__CPROVER_assigns()
+__CPROVER_ensures(1)
+;
+void xcm_tp_socket_attr_populate(struct xcm_socket *s, struct attr_tree *attr_tree)
+__CPROVER_requires(1)
+__CPROVER_assigns()
+__CPROVER_ensures(1)
+;
+
+/* ---- xpoll.c */
+struct xpoll *xpoll_create(void *log_ref)
+__CPROVER_requires(1)
+__CPROVER_assigns(xv_errno)
+__CPROVER_ensures(__CPROVER_return_value == NULL ==> xv_errno > 0)
+;
+void xpoll_destroy(struct xpoll *xpoll)
+__CPROVER_requires(1)
+__CPROVER_assigns(xv_destroyed_xpoll)
+__CPROVER_ensures(xv_destroyed_xpoll == xpoll)
+;
+
+/* ---- attr_tree.c: the per-call attribute tree is an opaque object here.  A write runs the attribute's setter on the
+ * socket (log_ref): it may change the socket's mode (xcm.blocking, set_blocking_attr == xcm_set_blocking) and sleeps
+ * only if that is what the caller asks for (xv_attrs_req_block).  A read hands (value, capacity) to the getter, which
+ * stays inside it (enforced in units tcpattr ...) */
+struct attr_tree *attr_tree_create(void)
+__CPROVER_requires(1)
+__CPROVER_assigns()
+__CPROVER_ensures(__CPROVER_return_value != NULL)
+;
+void attr_tree_destroy(struct attr_tree *tree)
+__CPROVER_requires(tree != NULL)
+__CPROVER_assigns()
+__CPROVER_ensures(1)
+;
+#define XC_CNT_OK(c) ((c) >= 0 && (c) < XC_CNT_MAX + XC_SLACK)
+int attr_tree_set_value(struct attr_tree *tree, const char *path, enum xcm_attr_type type, const void *value, size_t len, void *log_ref)
+__CPROVER_requires(tree != NULL && XC_CNT_OK(xv_set_calls) && __CPROVER_rw_ok((struct xcm_socket *)log_ref, sizeof(struct xcm_socket)))
+__CPROVER_assigns(xv_errno, xv_set_calls, xv_set_failed, xv_set_name, xv_set_type, xv_set_value, xv_set_len, xv_set_sock, xv_set_rv, xv_set_first_name)
+__CPROVER_assigns(((struct xcm_socket *)log_ref)->is_blocking, ((struct xcm_socket *)log_ref)->condition, xv_conn_dead, xv_updated, xv_upd_cond, xv_upd_sock)
+XC_MAY_BLOCK(xv_attrs_req_block)
+__CPROVER_ensures(XC_RV_OR_ERRNO && XC_DEAD_MONO)
+__CPROVER_ensures(xv_set_calls == __CPROVER_old(xv_set_calls) + 1 && xv_set_name == path && xv_set_type == (int)type && xv_set_value == value && xv_set_len == len && \
+                  xv_set_sock == (struct xcm_socket *)log_ref && xv_set_rv == __CPROVER_return_value)
+__CPROVER_ensures(xv_set_failed == (__CPROVER_old(xv_set_failed) || __CPROVER_return_value == -1))
+__CPROVER_ensures(xv_set_first_name == (__CPROVER_old(xv_set_calls) == 0 ? path : __CPROVER_old(xv_set_first_name)))
+;
+int attr_tree_get_value(struct attr_tree *tree, const char *path, enum xcm_attr_type *type, void *value, size_t capacity, void *log_ref)
+__CPROVER_requires(tree != NULL && XC_CNT_OK(xv_get_calls) && __CPROVER_w_ok(type, sizeof(*type)))
+/* PO[C10] attr_tree_get_value.buffer_is_the_callers (precondition, checked at every call site) */
+__CPROVER_requires(capacity == 0 || __CPROVER_w_ok(value, capacity))
+__CPROVER_assigns(xv_errno, xv_get_calls, xv_get_name, xv_get_value, xv_get_cap, xv_get_sock, xv_get_rv, xv_get_errno, xv_get_type, *type)
+__CPROVER_assigns(capacity > 0: __CPROVER_object_upto(value, capacity))
+__CPROVER_ensures(xv_get_calls == __CPROVER_old(xv_get_calls) + 1 && xv_get_name == path && xv_get_value == value && xv_get_cap == capacity && \
+                  xv_get_sock == (struct xcm_socket *)log_ref && xv_get_rv == __CPROVER_return_value)
+__CPROVER_ensures((__CPROVER_return_value == -1 && xv_errno > 0 && xv_get_errno == xv_errno) || \
+                  (__CPROVER_return_value >= 0 && (size_t)__CPROVER_return_value <= capacity && xv_get_type == (int)*type))
+;
+int attr_tree_get_list_len(struct attr_tree *tree, const char *path, void *log_ref)
+__CPROVER_requires(tree != NULL)
+__CPROVER_assigns(xv_errno)
+__CPROVER_ensures(__CPROVER_return_value >= 0 || (__CPROVER_return_value == -1 && xv_errno > 0))
+;
+/* the callback is the application's: what it does is not XCM's doing */
+void attr_tree_get_all(struct attr_tree *tree, xcm_attr_cb cb, void *cb_data)
+__CPROVER_requires(tree != NULL)
+__CPROVER_assigns()
+__CPROVER_ensures(1)
+;
+
+/* ---- util.c: formats the attribute name into a new heap string (aborts on failure) */
+#define XC_NAME_MAX 8
+char *ut_vasprintf(const char *fmt, va_list ap)
+__CPROVER_requires(1)
+__CPROVER_assigns()
+__CPROVER_ensures(__CPROVER_is_fresh(__CPROVER_return_value, XC_NAME_MAX) && __CPROVER_return_value[XC_NAME_MAX - 1] == 0)
+;
+
+/* ---- xcm_attr_map.c (opaque) */
+struct xcm_attr_map *xcm_attr_map_create(void)
+__CPROVER_requires(1)
+__CPROVER_assigns()
+__CPROVER_ensures(__CPROVER_return_value != NULL)
+;
+void xcm_attr_map_add_bool(struct xcm_attr_map *attr_map, const char *attr_name, bool attr_value)
+__CPROVER_requires(attr_map != NULL)
+__CPROVER_assigns()
+__CPROVER_ensures(1)
+;
+void xcm_attr_map_destroy(struct xcm_attr_map *attr_map)
+__CPROVER_requires(1)
+__CPROVER_assigns()
+__CPROVER_ensures(1)
+;
+bool xcm_attr_map_exists(const struct xcm_attr_map *attr_map, const char *attr_name)
+__CPROVER_requires(attr_map != NULL)
+__CPROVER_assigns()
+__CPROVER_ensures(1)
+;
+
 /* ================================================================================================================ */
 /* part 2: libxcm/core/xcm.c                                                                                        */
 /* ================================================================================================================ */
@@ -262,6 +437,335 @@ __CPROVER_ensures(__CPROVER_return_value == -1 ==> (xv_errno > 0 && XC_RCV_SAME)
 __CPROVER_ensures(__CPROVER_return_value >= 0 ==> (size_t)__CPROVER_return_value <= capacity)
 /* PO[C01] xcm_receive.blocking_retries_eagain: a blocking receive loops on EAGAIN and only on EAGAIN */
 __CPROVER_ensures((__CPROVER_old(conn_s->is_blocking) && __CPROVER_return_value == -1) ==> xv_errno != EAGAIN)
+;
+
+/* ================================================================================================================ */
+/* part 2b: the rest of the API.  C05: none of these contracts makes xv_blocked assignable for a non-blocking socket */
+/* ================================================================================================================ */
+#define XC_UPD_SAME (xv_updated == __CPROVER_old(xv_updated) && xv_upd_cond == __CPROVER_old(xv_upd_cond) && xv_upd_sock == __CPROVER_old(xv_upd_sock))
+#define XC_FIN_SAME (xv_fin_sock == __CPROVER_old(xv_fin_sock) && xv_fin_rv == __CPROVER_old(xv_fin_rv))
+
+/* ---- xcm_await: non-blocking sockets only; never sleeps in ANY mode (a blocking socket is refused) */
+int xcm_await(struct xcm_socket *s, int condition)
+__CPROVER_requires(XC_SOCK(s) && XC_MODE(s))
+__CPROVER_assigns(xv_errno, s->condition, xv_updated, xv_upd_cond, xv_upd_sock)
+__CPROVER_ensures(__CPROVER_return_value == ((!s->is_blocking && TP_IS_VALID_COND(s->type, condition)) ? 0 : -1))
+__CPROVER_ensures(__CPROVER_return_value == 0 ==> (s->condition == condition && xv_updated && xv_upd_cond == condition && xv_upd_sock == s))
+__CPROVER_ensures(__CPROVER_return_value == -1 ==> (xv_errno == EINVAL && s->condition == __CPROVER_old(s->condition) && XC_UPD_SAME))
+;
+/* ---- xcm_fd */
+int xcm_fd(struct xcm_socket *s)
+__CPROVER_requires(XC_SOCK(s) && XC_MODE(s))
+__CPROVER_assigns(xv_errno, xv_fd_ret)
+__CPROVER_ensures(s->is_blocking ? (__CPROVER_return_value == -1 && xv_errno == EINVAL) : (__CPROVER_return_value >= 0 && __CPROVER_return_value == xv_fd_ret))
+;
+/* ---- xcm_finish: exactly the transport's finish, once; a blocking socket is refused */
+int xcm_finish(struct xcm_socket *s)
+__CPROVER_requires(XC_SOCK(s) && XC_MODE(s))
+__CPROVER_assigns(XC_FIN_FRAME)
+__CPROVER_ensures(XC_DEAD_MONO)
+__CPROVER_ensures(s->is_blocking ? (__CPROVER_return_value == -1 && xv_errno == EINVAL && XC_FIN_SAME) \
+                                 : (xv_fin_sock == s && __CPROVER_return_value == xv_fin_rv && (__CPROVER_return_value == 0 || (__CPROVER_return_value == -1 && xv_errno == xv_fin_errno))))
+;
+/* ---- xcm_set_blocking: sleeps only when asked to turn a non-blocking socket into a blocking one (outstanding work is finished first) */
+int xcm_set_blocking(struct xcm_socket *s, bool should_block)
+__CPROVER_requires(XC_SOCK(s) && !xv_poll_failed)
+#if defined(XC_NB)
+__CPROVER_requires(!s->is_blocking && !should_block)
+#endif
+__CPROVER_assigns(s->is_blocking, XC_FIN_FRAME, xv_fd_ret, XC_WAIT_FRAME(s))
+XC_MAY_BLOCK(should_block && !s->is_blocking)
+__CPROVER_ensures(__CPROVER_return_value == 0 || __CPROVER_return_value == -1)
+__CPROVER_ensures(__CPROVER_return_value == 0 ==> s->is_blocking == should_block)
+__CPROVER_ensures(__CPROVER_return_value == -1 ==> (xv_errno > 0 && should_block && !s->is_blocking && !__CPROVER_old(s->is_blocking)))
+__CPROVER_ensures((__CPROVER_old(s->is_blocking) || !should_block) ==> (__CPROVER_return_value == 0 && XC_FIN_SAME && XC_UPD_SAME && s->condition == __CPROVER_old(s->condition)))
+;
+bool xcm_is_blocking(struct xcm_socket *s)
+__CPROVER_requires(XC_SOCK(s) && XC_MODE(s))
+__CPROVER_assigns()
+__CPROVER_ensures(__CPROVER_return_value == s->is_blocking)
+;
+/* ---- xcm_close / xcm_cleanup: transport close (cleanup), then the socket object and its xpoll instance go; no waiting in any mode */
+int xcm_close(struct xcm_socket *s)
+__CPROVER_requires(s != NULL ==> (XC_SOCK(s) && XC_MODE(s)))
+__CPROVER_assigns(xv_closed_sock, xv_destroyed_sock, xv_destroyed_xpoll)
+__CPROVER_frees(s)
+__CPROVER_ensures(__CPROVER_return_value == 0)
+__CPROVER_ensures(s != NULL ? (xv_closed_sock == s && xv_destroyed_sock == s && xv_destroyed_xpoll == __CPROVER_old(s->xpoll) ) \
+                            : (xv_closed_sock == __CPROVER_old(xv_closed_sock) && xv_destroyed_sock == __CPROVER_old(xv_destroyed_sock)))
+;
+void xcm_cleanup(struct xcm_socket *s)
+__CPROVER_requires(s != NULL ==> (XC_SOCK(s) && XC_MODE(s)))
+__CPROVER_assigns(xv_cleaned_sock, xv_destroyed_sock, xv_destroyed_xpoll)
+__CPROVER_frees(s)
+__CPROVER_ensures(s != NULL ? (xv_cleaned_sock == s && xv_destroyed_sock == s && xv_destroyed_xpoll == __CPROVER_old(s->xpoll) ) \
+                            : (xv_cleaned_sock == __CPROVER_old(xv_cleaned_sock) && xv_destroyed_sock == __CPROVER_old(xv_destroyed_sock)))
+;
+const char *xcm_remote_addr(struct xcm_socket *conn_s)
+__CPROVER_requires(XC_SOCK(conn_s) && XC_MODE(conn_s))
+__CPROVER_assigns(xv_errno)
+__CPROVER_ensures(conn_s->type != xcm_socket_type_conn ==> (__CPROVER_return_value == NULL && xv_errno == EINVAL))
+;
+const char *xcm_local_addr(struct xcm_socket *s)
+__CPROVER_requires(XC_SOCK(s) && XC_MODE(s))
+__CPROVER_assigns(xv_errno)
+__CPROVER_ensures(1)
+;
+
+/* ---- set_attrs: see part 3 for the C11 obligations.  When REPLACED (socket creation jobs) the mode the socket is left in
+ * is tied to the prophecy constant xv_mode_after_attrs: whatever set_attrs does, some value of the constant matches it, and
+ * the jobs are proved for both -- so the clause assumes nothing */
+#define XC_SET_FRAME xv_errno, xv_set_calls, xv_set_failed, xv_set_name, xv_set_type, xv_set_value, xv_set_len, xv_set_sock, xv_set_rv, xv_set_first_name, \
+                     xv_conn_dead, xv_updated, xv_upd_cond, xv_upd_sock
+static int set_attrs(struct xcm_socket *s, struct xcm_socket *parent_s, const struct xcm_attr_map *attrs)
+__CPROVER_requires(__CPROVER_is_fresh(s, sizeof(struct xcm_socket)) && XC_CNT_OK(xv_set_calls))
+__CPROVER_assigns(XC_SET_FRAME, s->is_blocking, s->condition)
+XC_MAY_BLOCK(xv_attrs_req_block)
+__CPROVER_ensures(XC_RV_OR_ERRNO && XC_DEAD_MONO)
+#ifndef XC_ENFORCE_SET_ATTRS
+__CPROVER_ensures(__CPROVER_return_value == 0 ==> s->is_blocking == xv_mode_after_attrs)
+#endif
+;
+
+/* ---- socket creation.  A connect is "non-blocking" when its attributes leave the new socket non-blocking
+ * (xcm.blocking = false, or the XCM_NONBLOCK flag of xcm_connect, which is that attribute) */
+#define XC_LIFE_FRAME xv_created_sock, xv_inited_sock, xv_connected_sock, xv_accepted_sock, xv_closed_sock, xv_destroyed_sock, xv_destroyed_xpoll, version_logged
+#if defined(XC_NB)
+#define XC_CONNECT_MODE (!xv_mode_after_attrs && !xv_attrs_req_block)
+#elif defined(XC_BL)
+#define XC_CONNECT_MODE (xv_mode_after_attrs)
+#else
+#define XC_CONNECT_MODE 1
+#endif
+#define XC_CONNECT_POST(rv) ((rv) != NULL ==> (__CPROVER_is_fresh((rv), sizeof(struct xcm_socket)) && (rv)->type == xcm_socket_type_conn && \
+                             (rv)->is_blocking == xv_mode_after_attrs && (rv) == xv_created_sock && (rv) == xv_inited_sock && (rv) == xv_connected_sock))
+struct xcm_socket *xcm_connect_a(const char *remote_addr, const struct xcm_attr_map *attrs)
+__CPROVER_requires(XC_CONNECT_MODE && !xv_poll_failed && XC_CNT_OK(xv_set_calls))
+__CPROVER_assigns(XC_LIFE_FRAME, XC_SET_FRAME, XC_FIN_FRAME, xv_fd_ret, xv_poll_failed)
+XC_MAY_BLOCK(xv_mode_after_attrs || xv_attrs_req_block)
+__CPROVER_ensures(XC_CONNECT_POST(__CPROVER_return_value))
+__CPROVER_ensures(__CPROVER_return_value == NULL ==> (xv_created_sock == __CPROVER_old(xv_created_sock) || xv_destroyed_sock == xv_created_sock))
+;
+struct xcm_socket *xcm_connect(const char *remote_addr, int flags)
+__CPROVER_requires(XC_CONNECT_MODE && !xv_poll_failed && XC_CNT_OK(xv_set_calls))
+#if defined(XC_NB)
+__CPROVER_requires((flags & XCM_NONBLOCK) != 0)
+#endif
+__CPROVER_assigns(XC_LIFE_FRAME, XC_SET_FRAME, XC_FIN_FRAME, xv_fd_ret, xv_poll_failed)
+XC_MAY_BLOCK(xv_mode_after_attrs || xv_attrs_req_block)
+__CPROVER_ensures(XC_CONNECT_POST(__CPROVER_return_value))
+;
+/* ---- accept: the SERVER socket's mode governs the waits */
+#define XC_ACCEPT_POST(rv) (((rv) != NULL ==> (__CPROVER_is_fresh((rv), sizeof(struct xcm_socket)) && (rv)->type == xcm_socket_type_conn && \
+                             (rv) == xv_created_sock && (rv) == xv_inited_sock && (rv) == xv_accepted_sock)) && \
+                            (server_s->type != xcm_socket_type_server ==> ((rv) == NULL && xv_errno == EINVAL)))
+struct xcm_socket *xcm_accept_a(struct xcm_socket *server_s, const struct xcm_attr_map *attrs)
+__CPROVER_requires(XC_SOCK(server_s) && XC_MODE(server_s) && !xv_poll_failed && XC_CNT_OK(xv_set_calls))
+#if defined(XC_NB)
+__CPROVER_requires(!xv_attrs_req_block)
+#endif
+__CPROVER_assigns(XC_LIFE_FRAME, XC_SET_FRAME, XC_FIN_FRAME, xv_fd_ret, XC_WAIT_FRAME(server_s))
+XC_MAY_BLOCK(server_s->is_blocking || xv_attrs_req_block)
+__CPROVER_ensures(XC_ACCEPT_POST(__CPROVER_return_value))
+;
+struct xcm_socket *xcm_accept(struct xcm_socket *server_s)
+__CPROVER_requires(XC_SOCK(server_s) && XC_MODE(server_s) && !xv_poll_failed && XC_CNT_OK(xv_set_calls))
+#if defined(XC_NB)
+__CPROVER_requires(!xv_attrs_req_block)
+#endif
+__CPROVER_assigns(XC_LIFE_FRAME, XC_SET_FRAME, XC_FIN_FRAME, xv_fd_ret, XC_WAIT_FRAME(server_s))
+XC_MAY_BLOCK(server_s->is_blocking || xv_attrs_req_block)
+__CPROVER_ensures(XC_ACCEPT_POST(__CPROVER_return_value))
+;
+
+/* ---- attribute writes: one attribute-tree write of exactly (name, type, value, len) on this socket, result passed through */
+#if defined(XC_NB)
+#define XC_ATTR_SET_MODE(s) (!(s)->is_blocking && !xv_attrs_req_block)
+#else
+#define XC_ATTR_SET_MODE(s) XC_MODE(s)
+#endif
+#define XC_ATTR_SET_FRAME(s) XC_SET_FRAME, (s)->is_blocking, (s)->condition
+#define XC_ATTR_SET_POST(s, name, type) (XC_RV_OR_ERRNO && xv_set_calls == __CPROVER_old(xv_set_calls) + 1 && xv_set_name == (name) && xv_set_type == (int)(type) && \
+                                         xv_set_sock == (s) && xv_set_rv == __CPROVER_return_value)
+int xcm_attr_set(struct xcm_socket *s, const char *name, enum xcm_attr_type type, const void *value, size_t len)
+__CPROVER_requires(__CPROVER_is_fresh(s, sizeof(struct xcm_socket)) && XC_ATTR_SET_MODE(s) && XC_CNT_OK(xv_set_calls))
+/* PO[C11] xcm_attr_set.not_after_a_failure (precondition: checked where set_attr_cb / set_default_attrs call it) */
+__CPROVER_requires(!xv_set_failed)
+__CPROVER_assigns(XC_ATTR_SET_FRAME(s))
+XC_MAY_BLOCK(xv_attrs_req_block)
+__CPROVER_ensures(XC_ATTR_SET_POST(s, name, type) && xv_set_value == value && xv_set_len == len)
+__CPROVER_ensures(xv_set_failed == (__CPROVER_return_value == -1))
+__CPROVER_ensures(xv_set_first_name == (__CPROVER_old(xv_set_calls) == 0 ? name : __CPROVER_old(xv_set_first_name)))
+;
+int xcm_attr_set_bool(struct xcm_socket *s, const char *name, bool value)
+__CPROVER_requires(__CPROVER_is_fresh(s, sizeof(struct xcm_socket)) && XC_ATTR_SET_MODE(s) && XC_CNT_OK(xv_set_calls) && !xv_set_failed)
+__CPROVER_assigns(XC_ATTR_SET_FRAME(s))
+XC_MAY_BLOCK(xv_attrs_req_block)
+__CPROVER_ensures(XC_ATTR_SET_POST(s, name, xcm_attr_type_bool) && xv_set_len == sizeof(bool))
+;
+int xcm_attr_set_int64(struct xcm_socket *s, const char *name, int64_t value)
+__CPROVER_requires(__CPROVER_is_fresh(s, sizeof(struct xcm_socket)) && XC_ATTR_SET_MODE(s) && XC_CNT_OK(xv_set_calls) && !xv_set_failed)
+__CPROVER_assigns(XC_ATTR_SET_FRAME(s))
+XC_MAY_BLOCK(xv_attrs_req_block)
+__CPROVER_ensures(XC_ATTR_SET_POST(s, name, xcm_attr_type_int64) && xv_set_len == sizeof(int64_t))
+;
+int xcm_attr_set_double(struct xcm_socket *s, const char *name, double value)
+__CPROVER_requires(__CPROVER_is_fresh(s, sizeof(struct xcm_socket)) && XC_ATTR_SET_MODE(s) && XC_CNT_OK(xv_set_calls) && !xv_set_failed)
+__CPROVER_assigns(XC_ATTR_SET_FRAME(s))
+XC_MAY_BLOCK(xv_attrs_req_block)
+__CPROVER_ensures(XC_ATTR_SET_POST(s, name, xcm_attr_type_double) && xv_set_len == sizeof(double))
+;
+#define XC_STR_MAX 12   /* strings handed to xcm_attr_set_str: up to 11 characters explored (strlen is closed by unwinding) */
+int xcm_attr_set_str(struct xcm_socket *s, const char *name, const char *value)
+__CPROVER_requires(__CPROVER_is_fresh(s, sizeof(struct xcm_socket)) && XC_ATTR_SET_MODE(s) && XC_CNT_OK(xv_set_calls) && !xv_set_failed)
+__CPROVER_requires(__CPROVER_is_fresh(value, XC_STR_MAX) && value[XC_STR_MAX - 1] == 0)
+__CPROVER_assigns(XC_ATTR_SET_FRAME(s))
+XC_MAY_BLOCK(xv_attrs_req_block)
+__CPROVER_ensures(XC_ATTR_SET_POST(s, name, xcm_attr_type_str) && xv_set_value == value && xv_set_len >= 1 && xv_set_len <= XC_STR_MAX && value[xv_set_len - 1] == 0)
+;
+
+/* ---- attribute reads (C10): the getter is handed exactly the caller's buffer and capacity -- never more */
+#define XC_CAP_MAX 4096UL
+#define XC_ATTR_GET_FRAME xv_errno, xv_get_calls, xv_get_name, xv_get_value, xv_get_cap, xv_get_sock, xv_get_rv, xv_get_errno, xv_get_type
+#define XC_ONE_GET(s, name, value, capacity) (xv_get_calls == __CPROVER_old(xv_get_calls) + 1 && xv_get_sock == (s) && xv_get_name == (name) && \
+                                              xv_get_value == (void *)(value) && xv_get_cap == (capacity))
+int xcm_attr_get(struct xcm_socket *s, const char *name, enum xcm_attr_type *type, void *value, size_t capacity)
+__CPROVER_requires(XC_SOCK(s) && XC_MODE(s) && XC_CNT_OK(xv_get_calls))
+__CPROVER_requires(__CPROVER_is_fresh(type, sizeof(*type)) && capacity <= XC_CAP_MAX && XC_BUF(value, capacity))
+__CPROVER_assigns(XC_ATTR_GET_FRAME, *type)
+__CPROVER_assigns(capacity > 0: __CPROVER_object_upto(value, capacity))
+/* PO[C10] xcm_attr_get.one_read_with_the_callers_capacity */
+__CPROVER_ensures(XC_ONE_GET(s, name, value, capacity) && __CPROVER_return_value == xv_get_rv)
+/* PO[C10] xcm_attr_get.length_within_capacity */
+__CPROVER_ensures((__CPROVER_return_value == -1 && xv_errno == xv_get_errno && xv_errno > 0) || \
+                  (__CPROVER_return_value >= 0 && (size_t)__CPROVER_return_value <= capacity && xv_get_type == (int)*type))
+;
+#define XC_TYPED_POST(required_type) ( \
+    (xv_get_rv == -1 ==> (__CPROVER_return_value == -1 && xv_errno == (xv_get_errno == EOVERFLOW ? ENOENT : xv_get_errno))) && \
+    ((xv_get_rv >= 0 && xv_get_type != (int)(required_type)) ==> (__CPROVER_return_value == -1 && xv_errno == ENOENT)) && \
+    ((xv_get_rv >= 0 && xv_get_type == (int)(required_type)) ==> __CPROVER_return_value == xv_get_rv))
+static int attr_get_with_type(struct xcm_socket *s, const char *name, enum xcm_attr_type required_type, void *value, size_t capacity)
+__CPROVER_requires(XC_SOCK(s) && XC_MODE(s) && XC_CNT_OK(xv_get_calls))
+__CPROVER_requires(capacity <= XC_CAP_MAX && XC_BUF(value, capacity))
+__CPROVER_assigns(XC_ATTR_GET_FRAME)
+__CPROVER_assigns(capacity > 0: __CPROVER_object_upto(value, capacity))
+/* PO[C10] attr_get_with_type.capacity_passed_down: the getter never sees a capacity larger than the caller's (it sees exactly it) */
+__CPROVER_ensures(XC_ONE_GET(s, name, value, capacity))
+/* PO[C10] attr_get_with_type.type_mismatch_is_enoent: a value of another type, or one that does not fit the typed buffer, is ENOENT; otherwise the tree's answer */
+__CPROVER_ensures(XC_TYPED_POST(required_type))
+__CPROVER_ensures(__CPROVER_return_value >= -1 && (__CPROVER_return_value >= 0 ==> (size_t)__CPROVER_return_value <= capacity))
+;
+/* typed getters: the caller's object is EXACTLY sizeof(T) bytes (is_fresh): a getter writing more is a frame violation */
+int xcm_attr_get_bool(struct xcm_socket *s, const char *name, bool *value)
+__CPROVER_requires(XC_SOCK(s) && XC_MODE(s) && XC_CNT_OK(xv_get_calls) && __CPROVER_is_fresh(value, sizeof(bool)))
+__CPROVER_assigns(XC_ATTR_GET_FRAME, *value)
+/* PO[C10] xcm_attr_get_bool.buffer_is_sizeof_bool */
+__CPROVER_ensures(XC_ONE_GET(s, name, value, sizeof(bool)) && XC_TYPED_POST(xcm_attr_type_bool))
+;
+int xcm_attr_get_int64(struct xcm_socket *s, const char *name, int64_t *value)
+__CPROVER_requires(XC_SOCK(s) && XC_MODE(s) && XC_CNT_OK(xv_get_calls) && __CPROVER_is_fresh(value, sizeof(int64_t)))
+__CPROVER_assigns(XC_ATTR_GET_FRAME, *value)
+/* PO[C10] xcm_attr_get_int64.buffer_is_sizeof_int64 */
+__CPROVER_ensures(XC_ONE_GET(s, name, value, sizeof(int64_t)) && XC_TYPED_POST(xcm_attr_type_int64))
+;
+int xcm_attr_get_double(struct xcm_socket *s, const char *name, double *value)
+__CPROVER_requires(XC_SOCK(s) && XC_MODE(s) && XC_CNT_OK(xv_get_calls) && __CPROVER_is_fresh(value, sizeof(double)))
+__CPROVER_assigns(XC_ATTR_GET_FRAME, *value)
+/* PO[C10] xcm_attr_get_double.buffer_is_sizeof_double */
+__CPROVER_ensures(XC_ONE_GET(s, name, value, sizeof(double)) && XC_TYPED_POST(xcm_attr_type_double))
+;
+/* str/bin: a value that does not fit stays EOVERFLOW; another type is ENOENT */
+#define XC_STRBIN_POST(required_type) ( \
+    (xv_get_rv == -1 ==> (__CPROVER_return_value == -1 && xv_errno == xv_get_errno)) && \
+    ((xv_get_rv >= 0 && xv_get_type != (int)(required_type)) ==> (__CPROVER_return_value == -1 && xv_errno == ENOENT)) && \
+    ((xv_get_rv >= 0 && xv_get_type == (int)(required_type)) ==> (__CPROVER_return_value == xv_get_rv && (size_t)__CPROVER_return_value <= capacity)))
+int xcm_attr_get_str(struct xcm_socket *s, const char *name, char *value, size_t capacity)
+__CPROVER_requires(XC_SOCK(s) && XC_MODE(s) && XC_CNT_OK(xv_get_calls) && capacity <= XC_CAP_MAX && XC_BUF(value, capacity))
+__CPROVER_assigns(XC_ATTR_GET_FRAME)
+__CPROVER_assigns(capacity > 0: __CPROVER_object_upto(value, capacity))
+/* PO[C10] xcm_attr_get_str.capacity_passed_down */
+__CPROVER_ensures(XC_ONE_GET(s, name, value, capacity) && XC_STRBIN_POST(xcm_attr_type_str))
+;
+int xcm_attr_get_bin(struct xcm_socket *s, const char *name, void *value, size_t capacity)
+__CPROVER_requires(XC_SOCK(s) && XC_MODE(s) && XC_CNT_OK(xv_get_calls) && capacity <= XC_CAP_MAX && XC_BUF(value, capacity))
+__CPROVER_assigns(XC_ATTR_GET_FRAME)
+__CPROVER_assigns(capacity > 0: __CPROVER_object_upto(value, capacity))
+/* PO[C10] xcm_attr_get_bin.capacity_passed_down */
+__CPROVER_ensures(XC_ONE_GET(s, name, value, capacity) && XC_STRBIN_POST(xcm_attr_type_bin))
+;
+int xcm_attr_get_list_len(struct xcm_socket *s, const char *name)
+__CPROVER_requires(XC_SOCK(s) && XC_MODE(s))
+__CPROVER_assigns(xv_errno)
+__CPROVER_ensures(__CPROVER_return_value >= 0 || (__CPROVER_return_value == -1 && xv_errno > 0))
+;
+void xcm_attr_get_all(struct xcm_socket *s, xcm_attr_cb cb, void *cb_data)
+__CPROVER_requires(XC_SOCK(s) && XC_MODE(s))
+__CPROVER_assigns()
+__CPROVER_ensures(1)
+;
+
+/* ---- formatted-name variants: the name is formatted into a heap string, the read is the plain one, the string is freed.
+ * attr_vgetf_with_type carries the typed ones (the public wrappers around it only do va_start/va_end) */
+static int attr_vgetf_with_type(struct xcm_socket *s, enum xcm_attr_type required_type, void *value, size_t capacity, const char *name_fmt, va_list ap)
+__CPROVER_requires(XC_SOCK(s) && XC_MODE(s) && XC_CNT_OK(xv_get_calls))
+__CPROVER_requires(capacity <= XC_CAP_MAX && XC_BUF(value, capacity))
+__CPROVER_assigns(XC_ATTR_GET_FRAME)
+__CPROVER_assigns(capacity > 0: __CPROVER_object_upto(value, capacity))
+/* PO[C10] attr_vgetf_with_type.capacity_passed_down */
+__CPROVER_ensures(xv_get_calls == __CPROVER_old(xv_get_calls) + 1 && xv_get_sock == s && xv_get_value == value && xv_get_cap == capacity)
+/* PO[C10] attr_vgetf_with_type.type_mismatch_is_enoent */
+__CPROVER_ensures(XC_TYPED_POST(required_type))
+;
+int xcm_attr_getf(struct xcm_socket *s, enum xcm_attr_type *type, void *value, size_t capacity, const char *name_fmt, ...)
+__CPROVER_requires(XC_SOCK(s) && XC_MODE(s) && XC_CNT_OK(xv_get_calls))
+__CPROVER_requires(__CPROVER_is_fresh(type, sizeof(*type)) && capacity <= XC_CAP_MAX && XC_BUF(value, capacity))
+__CPROVER_assigns(XC_ATTR_GET_FRAME, *type)
+__CPROVER_assigns(capacity > 0: __CPROVER_object_upto(value, capacity))
+/* PO[C10] xcm_attr_getf.one_read_with_the_callers_capacity */
+__CPROVER_ensures(xv_get_calls == __CPROVER_old(xv_get_calls) + 1 && xv_get_sock == s && xv_get_value == value && xv_get_cap == capacity && __CPROVER_return_value == xv_get_rv)
+__CPROVER_ensures((__CPROVER_return_value == -1 && xv_errno == xv_get_errno) || (__CPROVER_return_value >= 0 && (size_t)__CPROVER_return_value <= capacity))
+;
+int xcm_attr_getf_bool(struct xcm_socket *s, bool *value, const char *name_fmt, ...)
+__CPROVER_requires(XC_SOCK(s) && XC_MODE(s) && XC_CNT_OK(xv_get_calls) && __CPROVER_is_fresh(value, sizeof(bool)))
+__CPROVER_assigns(XC_ATTR_GET_FRAME, *value)
+/* PO[C10] xcm_attr_getf_bool.buffer_is_sizeof_type */
+__CPROVER_ensures(xv_get_calls == __CPROVER_old(xv_get_calls) + 1 && xv_get_sock == s && xv_get_value == (void *)value && xv_get_cap == sizeof(bool) && XC_TYPED_POST(xcm_attr_type_bool))
+;
+int xcm_attr_getf_int64(struct xcm_socket *s, int64_t *value, const char *name_fmt, ...)
+__CPROVER_requires(XC_SOCK(s) && XC_MODE(s) && XC_CNT_OK(xv_get_calls) && __CPROVER_is_fresh(value, sizeof(int64_t)))
+__CPROVER_assigns(XC_ATTR_GET_FRAME, *value)
+/* PO[C10] xcm_attr_getf_int64.buffer_is_sizeof_type */
+__CPROVER_ensures(xv_get_calls == __CPROVER_old(xv_get_calls) + 1 && xv_get_sock == s && xv_get_value == (void *)value && xv_get_cap == sizeof(int64_t) && XC_TYPED_POST(xcm_attr_type_int64))
+;
+int xcm_attr_getf_double(struct xcm_socket *s, double *value, const char *name_fmt, ...)
+__CPROVER_requires(XC_SOCK(s) && XC_MODE(s) && XC_CNT_OK(xv_get_calls) && __CPROVER_is_fresh(value, sizeof(double)))
+__CPROVER_assigns(XC_ATTR_GET_FRAME, *value)
+/* PO[C10] xcm_attr_getf_double.buffer_is_sizeof_type */
+__CPROVER_ensures(xv_get_calls == __CPROVER_old(xv_get_calls) + 1 && xv_get_sock == s && xv_get_value == (void *)value && xv_get_cap == sizeof(double) && XC_TYPED_POST(xcm_attr_type_double))
+;
+int xcm_attr_getf_str(struct xcm_socket *s, char *value, size_t capacity, const char *name_fmt, ...)
+__CPROVER_requires(XC_SOCK(s) && XC_MODE(s) && XC_CNT_OK(xv_get_calls) && capacity <= XC_CAP_MAX && XC_BUF(value, capacity))
+__CPROVER_assigns(XC_ATTR_GET_FRAME)
+__CPROVER_assigns(capacity > 0: __CPROVER_object_upto(value, capacity))
+/* PO[C10] xcm_attr_getf_str.capacity_passed_down */
+__CPROVER_ensures(xv_get_calls == __CPROVER_old(xv_get_calls) + 1 && xv_get_sock == s && xv_get_value == (void *)value && xv_get_cap == capacity)
+#ifndef XC_NB   /* decided in the C10 jobs (harness/xcmcore/attr_get.c), not once more in every C05 job */
+/* PO[C10] xcm_attr_getf_str.too_small_is_eoverflow_other_type_is_enoent: as for xcm_attr_get_str/_bin ("see xcm_attr_get() for other errno values") */
+__CPROVER_ensures(XC_STRBIN_POST(xcm_attr_type_str))
+#endif
+__CPROVER_ensures(__CPROVER_return_value >= 0 ==> (size_t)__CPROVER_return_value <= capacity)
+;
+int xcm_attr_getf_bin(struct xcm_socket *s, void *value, size_t capacity, const char *name_fmt, ...)
+__CPROVER_requires(XC_SOCK(s) && XC_MODE(s) && XC_CNT_OK(xv_get_calls) && capacity <= XC_CAP_MAX && XC_BUF(value, capacity))
+__CPROVER_assigns(XC_ATTR_GET_FRAME)
+__CPROVER_assigns(capacity > 0: __CPROVER_object_upto(value, capacity))
+/* PO[C10] xcm_attr_getf_bin.capacity_passed_down */
+__CPROVER_ensures(xv_get_calls == __CPROVER_old(xv_get_calls) + 1 && xv_get_sock == s && xv_get_value == (void *)value && xv_get_cap == capacity)
+#ifndef XC_NB   /* decided in the C10 jobs (harness/xcmcore/attr_get.c), not once more in every C05 job */
+/* PO[C10] xcm_attr_getf_bin.too_small_is_eoverflow_other_type_is_enoent: as for xcm_attr_get_str/_bin ("see xcm_attr_get() for other errno values") */
+__CPROVER_ensures(XC_STRBIN_POST(xcm_attr_type_bin))
+#endif
+__CPROVER_ensures(__CPROVER_return_value >= 0 ==> (size_t)__CPROVER_return_value <= capacity)
 ;
 
 #include "contracts/end.h"
